@@ -4,6 +4,7 @@ import Heathcliff.Proofs.C08C
 import Heathcliff.Proofs.GenWord
 import Heathcliff.Proofs.GenWord2
 import Heathcliff.Proofs.GenWord3
+import Heathcliff.Proofs.GenWord4
 
 /- Property theorems only (statements verbatim; proofs are the helper lemmas of Heathcliff/Proofs). -/
 namespace HC.C08
@@ -245,5 +246,9 @@ theorem gen_sub_uint_u64_eq (a : List Nat) (w : Nat) (r : List Nat) : GenW.sub_u
 /-- non-vacuity: a 61-bit modulus is well formed and the premises of the theorems are satisfiable -/
 example : ∃ m, Modulus.mk? 2305843009213693951 = .ok m ∧ m.WF :=
   ⟨_, rfl, (Modulus.mk?_wf (v := 2305843009213693951) rfl (by decide)).1⟩
+
+/-! ### translator tie, phase 3 (Proofs/GenWord4.lean): `negate_uint` (src/util/basic.rs) generated into Gen/WordFns.lean equals
+     `negateUint` (including the out-of-bounds panics when the operand is shorter than the result or the result is empty) -/
+theorem gen_negate_uint_eq (a r : List Nat) : GenW.negate_uint a r = negateUint a r.length := HC.gy_negate_uint_eq a r
 
 end HC.C08
